@@ -273,7 +273,7 @@ def run_cases(cases, outdir, with_model=True, release=False, timeout=120):
 
 # ------------------------------------------------------------------ trace parsing
 class Step:
-    __slots__ = ('op', 'kv', 'res', 'fields', 'outs', 'g', 's', 'bufs', 'allocs', 'galloc')
+    __slots__ = ('op', 'kv', 'res', 'fields', 'outs', 'g', 's', 'bufs', 'allocs', 'galloc', 'gv')
 
     def __init__(self):
         self.op = None
@@ -286,6 +286,7 @@ class Step:
         self.bufs = []
         self.allocs = None
         self.galloc = None
+        self.gv = None
 
 
 def parse_kv(line):
@@ -339,6 +340,8 @@ def parse_trace(trace_path, hist_path):
             cur.outs.append(v)
         elif l.startswith('G '):
             cur.g = [int(x) for x in l.split(' ')[1:]]
+        elif l.startswith('GV MISMATCH'):
+            cur.gv = [int(x) for x in l.split(' ')[2:]]
         elif l.startswith('S '):
             cur.s = l.split(' ')[1:]
         elif l.startswith('B '):
